@@ -81,6 +81,10 @@ TABLE = {
     "window_with_time_or_count": ("_windowwithtimeorcount.py", "a.pipe(ops.window_with_time_or_count(12, 2), ops.merge_all())"),
     "buffer": ("_buffer.py", "a.pipe(ops.buffer(b))"),
     "buffer_with_time": ("_bufferwithtime.py", "a.pipe(ops.buffer_with_time(12))"),
+    "buffer_when": ("_window.py", "a.pipe(ops.buffer_when(lambda: b))"),
+    "group_by_not_taken": ("_groupbyuntil.py", "a.pipe(ops.group_by(lambda x: x % 2, lambda x: x))"),
+    "group_by_until_not_taken": ("_groupbyuntil.py", "a.pipe(ops.group_by_until(lambda x: x % 2, lambda x: x, lambda g: b))"),
+    "group_join_not_taken": ("_groupjoin.py", "a.pipe(ops.group_join(b, lambda x: rx.timer(8), lambda y: rx.timer(8)))"),
     "group_by": ("_groupby.py", "a.pipe(ops.group_by(lambda x: x % 2), ops.merge_all())"),
     "group_by_until": ("_groupbyuntil.py", "a.pipe(ops.group_by_until(lambda x: x % 2, None, lambda g: b), ops.merge_all())"),
     "group_by_until_group_duration": ("_groupbyuntil.py", "a.pipe(ops.group_by_until(lambda x: x % 2, None, lambda g: g.pipe(ops.skip(1))), ops.merge_all())"),
@@ -136,6 +140,54 @@ def run_case(c):
     env = {"ops": ops, "rx": rx, "a": a, "b": b, "cb": cb, "scheduler": scheduler, "Disposable": Disposable}
     expr = TABLE[c["name"]][1]
     D = c.get("dispose")
+    K = c.get("dispose_in_on_next")
+    if K is not None:
+        # the subscriber unsubscribes from INSIDE its K-th on_next: every user function of the pipeline (each lambda of the shape is
+        # wrapped to log its calls) must stay silent from then on, and no notification arrives
+        import ast as _ast
+        ucalls = []
+
+        def _u(f):
+            def g(*args, **kw):
+                ucalls.append(getattr(f, "__name__", "lambda"))
+                return f(*args, **kw)
+            return g
+
+        class Wrap(_ast.NodeTransformer):
+            def visit_Lambda(self, n):
+                self.generic_visit(n)
+                return _ast.copy_location(_ast.Call(func=_ast.Name(id="_u", ctx=_ast.Load()), args=[n], keywords=[]), n)
+        tree = _ast.fix_missing_locations(Wrap().visit(_ast.parse(expr, mode="eval")))
+        env["_u"] = _u
+        env["cb"] = _u(lambda x: x)
+        code = compile(tree, "<shape>", "eval")
+        msgs, box, mark = [], {}, {}
+        from reactivex.disposable import SerialDisposable
+        sd = SerialDisposable()
+
+        def on_next(v):
+            msgs.append((int(scheduler.clock), "N"))
+            if len([m for m in msgs if m[1] == "N"]) == K:
+                sd.dispose()
+                mark["calls"], mark["msgs"], mark["t"] = len(ucalls), len(msgs), int(scheduler.clock)
+        scheduler.schedule_absolute(100, lambda s_, st: box.__setitem__("o", eval(code, env)))
+        scheduler.schedule_absolute(200, lambda s_, st: sd.__setattr__("disposable", box["o"].subscribe(
+            on_next, lambda e: msgs.append((int(scheduler.clock), "E")), lambda: msgs.append((int(scheduler.clock), "C")), scheduler=scheduler)))
+        scheduler.schedule_absolute(1000, lambda s_, st: sd.dispose())
+        scheduler.start()
+        subs = [(n, int(s.subscribe), (None if s.unsubscribe == _sys.maxsize else int(s.unsubscribe))) for n, o in (("a", a), ("b", b)) for s in o.subscriptions]
+        out = {"messages": msgs, "subscriptions": subs}
+        if "t" not in mark:
+            return None
+        if len(msgs) > mark["msgs"]:
+            return dict(out, what=f"C03: notifications after the subscriber unsubscribed inside its on_next #{K} at {mark['t']}: {msgs[mark['msgs']:]}")
+        if len(ucalls) > mark["calls"]:
+            return dict(out, what=f"C03: {len(ucalls) - mark['calls']} user function call(s) of the pipeline ran after the subscriber unsubscribed inside its "
+                                  f"on_next #{K} at {mark['t']}")
+        open_ = [s_ for s_ in subs if s_[2] is None or s_[2] > mark["t"]]
+        if open_:
+            return dict(out, what=f"C03: unsubscribing inside on_next #{K} at {mark['t']} left source subscriptions open (or closed them later): {open_}")
+        return None
     if c.get("subscriber_raises"):
         # the subscriber's own terminal callback raises: the exception goes to whoever emitted, the sources are released all the same
         msgs, box = [], {}
@@ -191,6 +243,8 @@ def cases(names):
             yield {"name": name, "a": ta, "b": tb, "dispose": 290, "subscriber_raises": True}
             for D in times:
                 yield {"name": name, "a": ta, "b": tb, "dispose": D}
+            for K in (1, 2, 3):
+                yield {"name": name, "a": ta, "b": tb, "dispose_in_on_next": K}
 
 
 REPLAY_TEMPLATE = '''#!/venv/bin/python
@@ -223,6 +277,8 @@ def main(argv):
     n, found = 0, None
     errors = []
     for c in cases(order):
+        if opts.get("only_kind") == "dispose_in_on_next" and c.get("dispose_in_on_next") is None:
+            continue
         n += 1
         try:
             r = run_case(c)
@@ -238,7 +294,7 @@ def main(argv):
         c = found["case"]
         with open(opts["replay_path"], "w") as f:
             f.write(REPLAY_TEMPLATE.format(prop=opts.get("prop", "C02"), oid=opts.get("oid", "?"), verif=VERIF, expr=TABLE[c["name"]][1],
-                                           a=c["a"], b=c["b"], dispose=c["dispose"], what=found["disagreement"]["what"], case=json.dumps(c)))
+                                           a=c["a"], b=c["b"], dispose=(c.get("dispose") if c.get("dispose_in_on_next") is None else f"inside on_next #{c['dispose_in_on_next']}"), what=found["disagreement"]["what"], case=json.dumps(c)))
         res["replay"] = opts["replay_path"]
     print(json.dumps(res, default=repr))
 
